@@ -19,6 +19,17 @@ iter_raw                                   the same in iteration order          
 iter_take <k>                              first k shards of iter() (sorted), then
                                            ExactSizeIterator::len of the rest      -> ok <rest> [..]…
 into_iter / into_iter_raw                  all shards of into_iter() (store gone)  -> ok [..]…
+new_hint <be> <sw> <b> <m> <vt> <hint>     the constructors with Some(hint) expected keys (capacity
+                                           only: the model ignores it)             -> ok | panic
+is_empty                                   SigStore::is_empty                      -> ok 0|1
+temp_dir                                   SigStore::temp_dir().is_some()          -> ok some|none
+into_iter_take <k>                         first k shards of into_iter() (sorted), size_hint of the
+                                           rest, iterator dropped (store gone)     -> ok <rest> [..]…
+svops <sw> <vt> <sigA> <valA> <sigB> <valB>   stateless: `SigVal` `==` (signature only), `^`, and
+                                           `RadixKey::get_level` of A for every level (8·sw)
+                                                                  -> ok <eq> <sig>:<val> [levels]
+tosig <seed> <hex>                         stateless: all `ToSig` impls agree on keys with these bytes
+                                           (xxh3 is not modelled: the expected reply is the law) -> ok 1
 ```
 A pair prints as `sig:val`; no shards at all prints as `-`.  Ops in the wrong stage (e.g. `push`
 after `shard`, anything after `into_iter` or after a panicking `shard`) reply `err stage`.
@@ -40,6 +51,7 @@ structure RSt where
   stage : Stage := .none
   sw : Nat := 1
   valBound : Nat := 1
+  offline : Bool := false
 deriving Inhabited
 
 def pairLe (a b : Pair) : Bool := a.1 < b.1 || (a.1 == b.1 && a.2 ≤ b.2)
@@ -69,14 +81,39 @@ def outStr {α} (o : Out α) (f : α → String) : String :=
   | .panic => "panic"
   | .oob => "oob"
 
+/-- `RadixKey::get_level` for every level: byte `l` (least significant first) of the signature read
+    as one number (`sig[0]·2^64 + sig[1]` for two words) -/
+def radixLevels (sw sig : Nat) : List Nat :=
+  (List.range (8 * sw)).map fun l => (sig >>> (8 * l)) % 256
+
+def isHexArg (s : String) : Bool :=
+  s == "-" || (s.length % 2 == 0 && s.toList.all fun c => c.isDigit || ('a' ≤ c && c ≤ 'f'))
+
 def bitsOk (offlineBuckets : Bool) (b : Nat) : Bool :=
   b ≤ 16 || 64 ≤ b || (offlineBuckets && 32 ≤ b)
 
 def step (r : RSt) (toks : List String) : RSt × String :=
   let bad := (r, "bad-op")
   let wrong := (r, "err stage")
+  -- the expected number of keys only sizes the initial allocation
+  let toks := match toks with
+    | ["new_hint", be, sw, b, m, vt, h] => if (parseNat h).isSome then ["new", be, sw, b, m, vt] else toks
+    | _ => toks
   match toks with
   | ["case", _] => ({}, "case")
+  | ["svops", sw, vt, sa, va, sb, vb] =>
+    let vb? : Option Nat := if vt == "u8" then some 256 else if vt == "u64" then some (2 ^ 64)
+      else if vt == "unit" then some 1 else none
+    match parseNat sw, vb?, parseNat sa, parseNat va, parseNat sb, parseNat vb with
+    | some sw, some bound, some sa, some va, some sb, some vb =>
+      if (sw = 1 ∨ sw = 2) ∧ sa < 2 ^ (64 * sw) ∧ sb < 2 ^ (64 * sw) ∧ va < bound ∧ vb < bound then
+        (r, s!"ok {fmtBool (sa == sb)} {sa ^^^ sb}:{va ^^^ vb} {fmtNatList (radixLevels sw sa)}")
+      else bad
+    | _, _, _, _, _, _ => bad
+  | ["tosig", seed, h] =>
+    match parseNat seed with
+    | some seed => if seed < 2 ^ 64 ∧ isHexArg h then (r, "ok 1") else bad
+    | none => bad
   | ["new", be, sw, b, m, vt] =>
     let be? : Option Backend := if be == "online" then some .mem else if be == "offline" then some .file else none
     let vb? : Option Nat := if vt == "u8" then some 256 else if vt == "u64" then some (2 ^ 64)
@@ -85,9 +122,9 @@ def step (r : RSt) (toks : List String) : RSt × String :=
     | some be, some sw, some b, some m, some vb =>
       if (sw = 1 ∨ sw = 2) ∧ bitsOk (be == .file) b ∧ bitsOk false m then
         match new be sw b m with
-        | .ok s => ({ stage := .sig s, sw := sw, valBound := vb }, "ok")
-        | .panic => ({ stage := .none, sw := sw, valBound := vb }, "panic")
-        | .oob => ({ stage := .none, sw := sw, valBound := vb }, "oob")
+        | .ok s => ({ stage := .sig s, sw := sw, valBound := vb, offline := be == .file }, "ok")
+        | .panic => ({ stage := .none, sw := sw, valBound := vb, offline := be == .file }, "panic")
+        | .oob => ({ stage := .none, sw := sw, valBound := vb, offline := be == .file }, "oob")
       else bad
     | _, _, _, _, _ => bad
   | ["push", sig, val] =>
@@ -124,6 +161,14 @@ def step (r : RSt) (toks : List String) : RSt × String :=
   | ["max_shard_high_bits"] =>
     match r.stage with
     | .sig s => (r, s!"ok {s.maxShardHighBits}")
+    | _ => wrong
+  | ["is_empty"] =>
+    match r.stage with
+    | .sig s => (r, s!"ok {fmtBool (s.len == 0)}")
+    | _ => wrong
+  | ["temp_dir"] =>
+    match r.stage with
+    | .sig _ => (r, if r.offline then "ok some" else "ok none")
     | _ => wrong
   | ["shard", sb] =>
     match parseNat sb with
@@ -163,6 +208,18 @@ def step (r : RSt) (toks : List String) : RSt × String :=
             outStr it.len (fun n => s!"ok {n} {fmtShards (ls.map canon)}"))
         | .panic => (r, "panic")
         | .oob => (r, "oob")
+      | _ => wrong
+    | none => bad
+  | ["into_iter_take", k] =>
+    match parseNat k with
+    | some k =>
+      match r.stage with
+      | .shard st => match drain k st.intoIter [] with
+        | .ok (ls, it) =>
+          ({ r with stage := .dead },
+            outStr it.len (fun n => s!"ok {n} {fmtShards (ls.map canon)}"))
+        | .panic => ({ r with stage := .dead }, "panic")
+        | .oob => ({ r with stage := .dead }, "oob")
       | _ => wrong
     | none => bad
   | ["into_iter"] =>
